@@ -119,6 +119,30 @@ IndInitU ==
   /\ IndInvU
 ProbeNoRevVisible == \A i \in 1 .. QueueLen : i <= Len(queue) => ~queue[i].rev
 
+(* ------------------------------- comp.Queue (Bus.tla, Kind = "queue") ----------------------- *)
+(* `queue` holds the items in insertion order (capacity is advisory: one beyond QueueLen is     *)
+(* admitted); one pass of the iterator removes the items matching a predicate.  Inductive:       *)
+(* insertion order is kept by pushes and by removal during iteration (tags increase).           *)
+QL1 == QueueLen + 1
+QPred(p, t) == IF p = 1 THEN t % 2 = 0 ELSE t % 3 = 0
+QPush == /\ Len(queue) < QL1 /\ ctr < MaxTag
+         /\ queue' = Append(queue, [t |-> ctr, at |-> cycle, rev |-> FALSE])
+         /\ ctr' = ctr + 1 /\ UNCHANGED <<buffer, cycle>>
+QIterRemove(p) == LET \* @type: ({t: Int, at: Int, rev: Bool}) => Bool;
+                      Keep(e) == ~QPred(p, e.t)
+                  IN /\ queue' = SelectSeq(queue, Keep)
+                     /\ UNCHANGED <<buffer, cycle, ctr>>
+NextQ == QPush \/ QIterRemove(1) \/ QIterRemove(2)
+IndInvQ ==
+  /\ cycle = 1 /\ ctr >= 1 /\ ctr <= MaxTag /\ buffer = <<>> /\ Len(queue) <= QL1
+  /\ \A i \in 1 .. QL1 : i <= Len(queue) => (queue[i].t >= 1 /\ queue[i].t < ctr)
+  /\ \A i, j \in 1 .. QL1 : (i < j /\ j <= Len(queue)) => queue[i].t < queue[j].t
+IndInitQ ==
+  /\ cycle = 1 /\ ctr \in 1 .. MaxTag /\ buffer = <<>>
+  /\ \E nq \in 0 .. QL1 : \E fq \in [1 .. QL1 -> [t : 1 .. MaxTag, at : 1 .. 1, rev : {FALSE}]] : queue = FunAsSeq(fq, nq, QL1)
+  /\ IndInvQ
+ProbeQShort == Len(queue) < 2
+
 (* non-vacuity probes: each must be REFUTED from IndInit at length 0 / 1 *)
 ProbeNotFull == ~(Len(buffer) = BufferLen /\ Len(queue) = QueueLen)
 ProbeNoMove == Len(queue) = 0
